@@ -114,8 +114,8 @@ var traceAll bool
 
 func printResult(res *harnessResult) {
 	ex := res.Ex
-	fmt.Printf("harness %s/%s: paths=%d completed=%d infeasible=%d nontrivial=%d obligations=%d discharged=%d queries=%d solver=%.1fs wall=%.1fs maxdec=%d\n",
-		res.Cfg.Pkg, res.Cfg.Func, ex.paths, ex.completed, ex.infeasible, ex.nontrivial, ex.obligations, ex.discharged, ex.queries, ex.solverTime.Seconds(), res.Wall.Seconds(), ex.maxDecisions)
+	fmt.Printf("harness %s/%s: paths=%d completed=%d infeasible=%d pruned=%d nontrivial=%d obligations=%d discharged=%d queries=%d solver=%.1fs wall=%.1fs maxdec=%d\n",
+		res.Cfg.Pkg, res.Cfg.Func, ex.paths, ex.completed, ex.infeasible, ex.pruned, ex.nontrivial, ex.obligations, ex.discharged, ex.queries, ex.solverTime.Seconds(), res.Wall.Seconds(), ex.maxDecisions)
 	labels := sortedKeys(ex.reached)
 	fmt.Printf("  reached: %v\n", labels)
 	for _, k := range sortedKeys(ex.inconclusive) {
